@@ -6,7 +6,7 @@
 //        elem pod|log|own   pod: trivially copyable struct; log: copy operations are recorded;
 //                           own: additionally owns a heap cell (leaks / double frees -> ASan, LSan)
 // answer
-//   out <key:idx,...> cw <start+len,...> mw <start+len,...> live <delta>
+//   out <key:idx,...> cw <start+len,...> mw <start+len,...> live <delta> spec <0|1>
 //        out : the caller's range afterwards, elements tagged with their original index; for the
 //              unstable variant the order inside runs of equivalent keys is canonicalised (by idx)
 //        cw  : per thread, the window of the input that the thread copy-constructed from
@@ -204,9 +204,15 @@ static void run_tracked(const std::vector<ll>& keys, bool stable, Cmp c, tlx::Mu
         }
         if (Own) for (auto& e : v) if (!e.heap || *e.heap != e.key) { bad.push_back("element heap cell inconsistent"); break; }
     }
-    vh::answer("out " + show(got, c, stable) + " cw " + cw + " mw " + mw + " live " + std::to_string(live_delta));
     oracle(keys, got, c, stable, bad);
     if (live_delta != 0) bad.push_back("temporary element copies not destroyed: live-instance delta " + std::to_string(live_delta));
+    {
+        std::vector<std::string> sortbad;
+        oracle(keys, got, c, stable, sortbad);
+        // `spec`: the result is the specified arrangement (the driver prints the same for the model)
+        vh::answer("out " + show(got, c, stable) + " cw " + cw + " mw " + mw + " live " + std::to_string(live_delta) +
+                   " spec " + (sortbad.empty() ? "1" : "0"));
+    }
     for (auto& b : bad) vh::viol(b + " in " + line);
 }
 
@@ -229,9 +235,9 @@ static void do_ms(const std::vector<std::string>& t, const std::string& line) {
         call_sort(v, stable, c, sa, static_cast<size_t>(threads));
         std::vector<KI> got;
         for (auto& e : v) got.push_back(KI{e.key, e.idx});
-        vh::answer("out " + show(got, c, stable) + " cw - mw - live 0");
         std::vector<std::string> bad;
         oracle(keys, got, c, stable, bad);
+        vh::answer("out " + show(got, c, stable) + " cw - mw - live 0 spec " + (bad.empty() ? "1" : "0"));
         for (auto& b : bad) vh::viol(b + " in " + line);
     }
     else if (t[6] == "log") run_tracked<false>(keys, stable, c, sa, static_cast<size_t>(threads), line);
